@@ -9,6 +9,7 @@ import (
 	"io"
 	"runtime"
 	"testing"
+	"testing/iotest"
 
 	"github.com/karagenc/socket.io-go/engine.io/parser"
 	"github.com/karagenc/socket.io-go/engine.io/transport/webtransport"
@@ -320,11 +321,66 @@ func evalC11WT(c c11WTCase) *Failure {
 	if r.Len() != 0 {
 		return fail("stream-position", fmt.Sprintf("%d bytes left after reading both frames", r.Len()))
 	}
+	// the same stream through the server's limited reader, from sources that hand out data the way network streams do: the last bytes
+	// together with io.EOF, one byte at a time, half of what is asked for
+	for _, src := range []struct {
+		name string
+		mk   func(io.Reader) io.Reader
+	}{{"data-with-EOF", iotest.DataErrReader}, {"one-byte", iotest.OneByteReader}, {"half", iotest.HalfReader}} {
+		if c.Len > 4096 && src.name == "one-byte" && c.Len%97 != 0 {
+			continue // (one byte at a time is slow for long frames: every 97th length)
+		}
+		lr := webtransport.VerifNewLimitedReader(src.mk(bytes.NewReader(buf.Bytes())), 0)
+		for k, wantP := range []c11Pkt{p, next} {
+			var got *parser.Packet
+			var err error
+			if msg, _ := catchPanic(func() { got, err = webtransport.VerifNextPacket(lr) }); msg != "" {
+				return fail("no-panic", fmt.Sprintf("nextPacket over a %s source panicked: %s", src.name, msg))
+			}
+			if err != nil || !c11Same(wantP, got) {
+				return fail("round-trip", fmt.Sprintf("frame %d of 2 read through the limited reader from a %s source: got %s err %v, want %s", k+1, src.name, c11Desc(got), err, c11Desc(wantP.real())))
+			}
+		}
+	}
+	// a send that fails part of the way (the peer is gone) must not leave anything behind that a later send - on any stream - emits
+	fw := &c11FailingWriter{okBytes: (c.Len*7 + 3) % (len(want) + 1)}
+	var ferr error
+	if msg, _ := catchPanic(func() { ferr = webtransport.VerifSend(fw, p.real()) }); msg != "" {
+		return fail("no-panic", "send to a failing writer panicked: "+msg)
+	}
+	if ferr == nil && fw.okBytes < len(want) {
+		return fail("encode-ok", fmt.Sprintf("send reported success although the writer failed after %d of %d bytes", fw.okBytes, len(want)))
+	}
+	var after bytes.Buffer
+	if msg, _ := catchPanic(func() { err = webtransport.VerifSend(&after, next.real()) }); msg != "" || err != nil {
+		return fail("encode-ok", fmt.Sprintf("send after a failed send: %v %s", err, msg))
+	}
+	if wantNext := refcodec.EncodeWTFrame(next.ref()); !bytes.Equal(after.Bytes(), wantNext) {
+		return fail("conformance", fmt.Sprintf("the send that followed a failed send (writer failed after %d bytes) wrote %d bytes starting %x, want the %d bytes of its own frame starting %x",
+			fw.okBytes, after.Len(), trunc(after.Bytes(), 12), len(wantNext), trunc(wantNext, 12)))
+	}
 	return nil
 }
 
+// c11FailingWriter accepts okBytes bytes and then fails, like a stream whose peer has gone away.
+type c11FailingWriter struct {
+	okBytes int
+	n       int
+}
+
+func (w *c11FailingWriter) Write(p []byte) (int, error) {
+	if w.n+len(p) <= w.okBytes {
+		w.n += len(p)
+		return len(p), nil
+	}
+	k := w.okBytes - w.n
+	w.n = w.okBytes
+	return k, io.ErrClosedPipe
+}
+
 func TestC11_WTFramesExhaustive(t *testing.T) {
-	ev := NewEv(t, "C11", c11CheckWT, "exhaustive: every data length 0..70000 x {text,binary}, each followed by a second frame on the same stream; "+
+	ev := NewEv(t, "C11", c11CheckWT, "exhaustive: every data length 0..70000 x {text,binary}, each followed by a second frame on the same stream, read back directly and through the limited reader from sources that return the "+
+		"last bytes together with io.EOF / one byte at a time / half of what is asked; plus a send to a writer that fails part of the way followed by a send elsewhere (nothing of the failed one may leak into it); "+
 		"non-trivial = encoded length in the 16- or 64-bit form")
 	ev.Exhaustive()
 	const maxLen = 70000
